@@ -95,7 +95,7 @@ MACHINE = {"x86": 0x014C, "x64": 0x8664}
 def build_pe(arch: str = "x86", e_lfanew: int = 128, compile_stamp: int = 0x5F000000,
              export_stamp: Optional[int] = 0x5F100000, data: bytes = b"", text_size: int = 512,
              magic_mz: bytes = b"MZ", magic_pe: bytes = b"PE\x00\x00", filler_seed: int = 1,
-             data_vsize: Optional[int] = None) -> Tuple[bytes, Dict[str, int]]:
+             data_vsize: Optional[int] = None, num_rva: int = 16) -> Tuple[bytes, Dict[str, int]]:
     """Minimal but structurally faithful PE: DOS header, PE signature, file header, optional header (32/64),
     three sections (.text, .rdata with an export directory, .data holding `data`). Returns (bytes, map)."""
     file_align = 0x200
@@ -138,11 +138,11 @@ def build_pe(arch: str = "x86", e_lfanew: int = 128, compile_stamp: int = 0x5F00
     if is64:
         opt = struct.pack("<HBBIIIIIQIIHHHHHHIIIIHHQQQQII", 0x20B, 14, 0, text_rsize, rdata_rsize + data_rsize, 0,
                           text_va, text_va, 0x180000000, sect_align, file_align, 6, 0, 0, 0, 6, 0, 0,
-                          size_of_image, size_of_headers, 0, 2, 0x160, 0x100000, 0x1000, 0x100000, 0x1000, 0, 16)
+                          size_of_image, size_of_headers, 0, 2, 0x160, 0x100000, 0x1000, 0x100000, 0x1000, 0, num_rva)
     else:
         opt = struct.pack("<HBBIIIIIIIIIHHHHHHIIIIHHIIIIII", 0x10B, 14, 0, text_rsize, rdata_rsize + data_rsize, 0,
                           text_va, text_va, rdata_va, 0x10000000, sect_align, file_align, 6, 0, 0, 0, 6, 0, 0,
-                          size_of_image, size_of_headers, 0, 2, 0x140, 0x100000, 0x1000, 0x100000, 0x1000, 0, 16)
+                          size_of_image, size_of_headers, 0, 2, 0x140, 0x100000, 0x1000, 0x100000, 0x1000, 0, num_rva)
     opt += bytes(dd)
     assert len(opt) == opt_size, (len(opt), opt_size)
 
